@@ -68,7 +68,7 @@ claimed["C07"] = dict(
    text="Thin claim: static rules decide the clause 'every added leaf it asked to remember' at its only source (every added leaf is listed in the update data on "
         "every path) and the wiring of the cached-proof update (each phase fed from its own UpdateData lists, positions paired with their hashes, remove before add "
         "on the returned hashes); the recorded position of an added leaf depends on the call that lifts it over overwritten empty roots; remembered leaves are looked up by their "
-        "full hash, never by a position computed from the leaf count or by a truncated hash; a discarded error of a position function in the update is excluded by a guard or a reviewed lemma covering every failing return of the callee (a failing call would pair the leaf with position 0). Positions, canonicity and retention over deletions are not decided.",
+        "full hash, never by a position computed from the leaf count or by a truncated hash; a discarded error of a position function in the update is excluded by a guard or a reviewed lemma covering every failing return of the callee (a failing call would pair the leaf with position 0); a list the update walks like one side of a merge is sorted first. Positions, canonicity and retention over deletions are not decided.",
    ref="DESIGN.md 5/C07, engine E2",
    technique="static must-pass-through and dataflow-wiring rules on go/ssa (custom analyzer)")
 
@@ -192,7 +192,7 @@ m = {
               "kind_free_text": "repository-specific static analyzer: go/packages + go/types + go/ssa + VTA/CHA call graph; path/dominance rules, lockset, slice-ownership abstract interpretation, flow- and context-sensitive order-class and coordinate-layout abstract interpretation, io discipline"}],
  "checks": checks,
  "not_applicable": na,
- "notes": "All checks are static (no utreexo code is executed). Fifteen genuine defects reported by the rules on the pinned tree were repaired in /repo by 'fix:' commits and two are recorded as known findings (F1: C10, F2: C08) because no small repair passes the unedited suite / exists; see known_findings.json and DESIGN.md section 6. The independently seeded defects are kept under seeded/ (DESIGN.md section 10); those a rule reports are re-applied as self-test variants by every thorough run.",
+ "notes": "All checks are static (no utreexo code is executed). Sixteen genuine defects reported by the rules on the pinned tree were repaired in /repo by 'fix:' commits and two are recorded as known findings (F1: C10, F2: C08) because no small repair passes the unedited suite / exists; see known_findings.json and DESIGN.md section 6. The independently seeded defects are kept under seeded/ (DESIGN.md section 10); those a rule reports are re-applied as self-test variants by every thorough run.",
 }
 json.dump(m, open(os.path.join(V, "MANIFEST.json"), "w"), indent=1)
 print("checks:", [c["property_id"] for c in checks], "not_applicable:", [n["property_id"] for n in na])
